@@ -76,7 +76,14 @@ def main():
     c.load()
     total_s = total_m = 0
     lines = []
-    for f, qs in sorted(anchored_functions(pid).items()):
+    if pid == "ALL":  # union over all properties: statements no check's implementation run executes
+        anchored = {}
+        for l in open(os.path.join(VERIF, "properties.jsonl")):
+            for f, qs in anchored_functions(json.loads(l)["id"]).items():
+                anchored.setdefault(f, set()).update(qs)
+    else:
+        anchored = anchored_functions(pid)
+    for f, qs in sorted(anchored.items()):
         path = os.path.join(REPO, f)
         if not os.path.exists(path):
             continue
